@@ -78,6 +78,9 @@ pub const ZOO: &[&str] = &[
     "* star list\n* second",
     "- item\n\n  continuation paragraph\n\n  - nested",
     "[[1]] and [[2|piped]] wiki links in a paragraph",
+    "- a\n  - child of a\n- - b starts with a list\n  - c",
+    "1. one\n   - sub\n2. - two starts with a list",
+    "- a\n\n  para under a\n- - b",
     "[dot link](./1) and [parent link](../1)",
     "[ext link](1.md) [ext link 2](2.md)",
     "Term\n: definition style line",
@@ -430,10 +433,13 @@ impl<'a> Gen<'a> {
         }
         if self.rng.chance(1, 60) {
             // a long flat note: many blocks in a row on one level (sibling chains, not nesting)
-            let m = self.rng.range(60, 90);
+            let m = if self.rng.chance(1, 4) { self.rng.range(260, 400) } else { self.rng.range(60, 90) };
             for i in 0..m {
                 if i % 9 == 4 {
                     blocks.push(Block::Heading { level: 2, inl: self.words(1, 2), setext: false });
+                } else if i % 50 == 49 {
+                    let l = self.link();
+                    blocks.push(Block::Para(vec![vec![Inline::Word("late".into()), l]]));
                 } else {
                     blocks.push(Block::Para(vec![self.words(1, 2)]));
                 }
